@@ -510,6 +510,11 @@ class UpdateCollection(Message):
                         withdraws = b''
                     mp_unreach = mpurnlri
 
+            if not (mp_reach or mp_unreach or announced or withdraws):
+                # nothing left for this family (its withdraws are not wanted): an UPDATE without
+                # any NLRI would be read as the IPv4 unicast End-of-RIB marker (RFC 4724 2)
+                continue
+
             yield self._message(
                 UpdateCollection.prefix(withdraws) + UpdateCollection.prefix(mp_unreach + attr + mp_reach) + announced,
             )  # yield mpr/mpur per family
